@@ -115,6 +115,13 @@ def run(tier, seed):
         gen.useArcs = False
         gen.useRegEdit = False
         probe = gen.build().steps
+        if rng.random() < 0.3:
+            # a program that does not home X / Y itself (it trusts the position, or homes Z only):
+            # whatever survived of the previous print's coordinate frame shows in its decisions
+            first = [i for i, st in enumerate(probe) if st[0] == "g" and st[1].startswith("G28")]
+            if first:
+                probe = list(probe)
+                probe[first[0]] = rng.choice([("g", "G28 Z", {}), ("g", "G90", {})])
         dirt = dirty_print(rng, getattr(hist, "regions_view", []))
         if rng.random() < 0.5:
             # scripts configured for the whole history (applied by the SettingsUpdated event that
